@@ -33,11 +33,15 @@
                                                                           `isub` on each question alone
      (imem G gtype gvalue)    -> in | out                                   extracted `gmem_b`
      (icall G C ATOM Z M ARG) -> none | (ATOM Z)        ARG = - | (ATOM Z)   extracted `gcall`
-     (iret G gtype M)         -> none | (atoms ATOM...)                     extracted `ret_atoms` *)
+     (iret G gtype M)         -> none | (atoms ATOM...)                     extracted `ret_atoms`
+   self-referential interfaces (Model/C02_IfaceRec.v); G has ONE class and ONE interface (their base methods)
+     (irsub FX G S0 T0 (ATOM Z) S T) -> ill-formed | ok | reject     extracted `rsub` (FX = fixed | found), `rtab_ok`
+     (ircall G S0 T0 (ATOM Z) M)     -> none | (ATOM Z)              extracted `rcall` (no argument) *)
 open BinNums
 open C02_Types
 open C02_Classes
 open C02_Iface
+open C02_IfaceRec
 
 type sx = A of string | L of sx list
 
@@ -373,6 +377,27 @@ let irequest (x : sx) : string option =
       | None -> Some "none"
       | Some l -> Some ("(atoms" ^ String.concat "" (List.map (fun a -> " " ^ show_atom a) l) ^ ")"))
   | _ -> None
+
+let rtab_of g s0 t0 a k =
+  match tabs_of g with
+  | [ (c, cm) ], [ (i, im) ] ->
+      { r_cls = c; r_ifc = i; r_cm = cm; r_im = im; r_s0 = bty_of s0; r_t0 = bty_of t0; r_lit = (atom_of a, z k) }
+  | _ -> failwith "rtab"
+
+let rrequest (x : sx) : string option =
+  match x with
+  | L [ A "irsub"; fx; g; s0; t0; L [ A a; A k ]; s; t ] ->
+      let r = rtab_of g s0 t0 a k in
+      if not (rtab_ok r) then Some "ill-formed"
+      else Some (if rsub (fx_of fx) r (bty_of s) (bty_of t) then "ok" else "reject")
+  | L [ A "ircall"; g; s0; t0; L [ A a; A k ]; A m ] -> (
+      let r = rtab_of g s0 t0 a k in
+      match rcall r (z m) None with
+      | None -> Some "none"
+      | Some (ra, rk) -> Some ("(" ^ show_atom ra ^ " " ^ zs rk ^ ")"))
+  | _ -> None
+
+let irequest (x : sx) : string option = match rrequest x with Some a -> Some a | None -> irequest x
 
 let run (x : sx) : string =
   match irequest x with
